@@ -48,6 +48,30 @@ CHECKS.update({
             'Trusted: the argument model; uniqueness demanded among defaulted ids only.', 'DESIGN.md 3 C19'),
 })
 
+CHECKS.update({
+    'C01': ('Hypothesis schemas x resolvable populations x every serialization route; round trip against a harness-computed description + fixed point',
+            'Generated metamodels (shape grammar, hard values, keyword identifiers) are built through the API, sent through '
+            'each route and the reloaded model is compared, by public reads, with a description the harness computes from the '
+            'generated case; second and third generation texts must be identical. Bounded exploration.',
+            'Trusted: the expected-description code and the shadow link derivation. Carriage returns through the file '
+            'routes are a recorded known finding (excluded by construction, counted).', 'DESIGN.md 3 C01'),
+    'C03': ('Hypothesis dirty populations x statement permutations / partitions / files / directory trees / zip; key-join oracle, canonical-form invariance, API differential',
+            'Links of the loaded model are compared with a key-join computed by the harness; a canonical form must be '
+            'identical across drawn (thorough: all, for <= 6 statements) permutations, partitions into inputs and files, '
+            'and bridgepoint directory / zip containers; the same rows created through new()/clone() must give the same links.',
+            'Trusted: harness key-join and SQL writer. The API-equivalence clause on phrase-bearing associations is a '
+            'recorded known finding (MetaClass.new direction bug pinned by the test-suite).', 'DESIGN.md 3 C03'),
+    'C12': ('Hypothesis text / token soup / single-edit mutants / input histories + pumped inputs; exception-class, loader-snapshot, differential-build and alarm oracles',
+            'Every input() must return or raise ParsingException within 10 s and leave loader.statements unchanged when it '
+            'raises; every build must return or raise a ParsingException/MetaException and equal the build of a fresh '
+            'loader fed only the accepted inputs. Bounded exploration.',
+            'Trusted: structural snapshot of loader.statements; 10 s alarm as the bounded-time criterion.', 'DESIGN.md 3 C12'),
+    'C18': ('Hypothesis histories of input / build / mutate on one loader; snapshot non-interference + fresh-loader differential',
+            'After every mutation of one built metamodel all the others must re-serialize to their snapshots and keep their '
+            'canonical form; every build must equal the build of a fresh loader fed the same inputs.',
+            'Trusted: serialize + navigation-based canonical form as the notion of "visible".', 'DESIGN.md 3 C18'),
+})
+
 NOT_APPLICABLE = {
 }
 
